@@ -289,7 +289,7 @@ def run(ctx):
         h["id"] = k
     rejq = ctx.tlc_trace("PrioDictTrace", pq, chunks=8, label="priority queues inside Network.prepare")
     for i, clause in sorted(rejq.items()):
-        ctx.violation("prepare/priority_dict/%s" % clause, "priority queue history recorded inside Network.prepare(): %s" % clause, pq[i])
+        ctx.growth("prepare/priority_dict/%s" % clause, "priority queue history recorded inside Network.prepare(): %s" % clause, pq[i])
     ctx.extra["priority_queue_histories_inside_prepare"] = len(pq)
     for k, e in enumerate(events):
         e["id"] = k
@@ -299,7 +299,9 @@ def run(ctx):
         e = byid[i]
         what = "mapOnNetwork(%s) edges %s obs %s -> %s: %s" % (e["cfg"], e["edges"], e["obs"],
                                                              ("raised " + e.get("exc", "")) if e["raised"] else e["states"], clause)
-        if clause == "legacy_vertical":
+        if clause.startswith("growth_"):
+            ctx.growth("mapOnNetwork/" + clause, what, e)
+        elif clause == "legacy_vertical":
             ctx.violation("mapOnNetwork/segment with x1 = x2", what, e)
         else:
             ctx.violation("mapOnNetwork/%s%s" % (clause, "/vertical-hit" if has_vertical_hit(e["edges"], e["obs"]) else ""), what, e)
